@@ -80,21 +80,39 @@ pub fn check(tape: &[u32]) -> CheckResult {
         }
         _ => {}
     }
-    // now and then a large map (150-200 tiles a side, ids spread over 1234 one-pixel tiles) whose stored tile data is
-    // far larger than any decoder's internal buffers
+    // now and then a large map (150-200 tiles a side, sometimes 256-300 so that it holds more than 65535 tiles; ids
+    // spread over 1234 one-pixel tiles) whose stored tile data is far larger than any decoder's internal buffers, or
+    // a short map of very wide (or very tall) tiles whose pixel extent passes 65535
     let big_map = s.fmt == Fmt::Rgba && t.chance(1, 150);
     if big_map {
-        let (mw, mh) = (150 + t.below(50) as u16, 150 + t.below(50) as u16);
+        let variant = t.below(4);
+        let (mw, mh, tw, th, count) = match variant {
+            0 | 1 => (150 + t.below(50) as u16, 150 + t.below(50) as u16, 1u16, 1u16, 1234u32),
+            2 => (256 + t.below(45) as u16, 256 + t.below(45) as u16, 1, 1, 1234),
+            _ => {
+                let n = 9 + t.below(4) as u16;
+                if t.chance(1, 2) { (n, 1, 8192, 1, 3) } else { (1, n, 1, 8192, 3) }
+            }
+        };
         let mut r = crate::encode::Rng(t.raw64());
-        let count = 1234u32;
-        let px: Vec<u8> = (0..count as usize * 4).map(|i| if i < 4 { 0 } else if i % 4 == 3 { 255 } else { r.next() as u8 }).collect();
-        s.width = mw.max(mh);
-        s.height = s.width;
-        s.tilesets.push(Tileset { id: 77, flags: 6, count, tw: 1, th: 1, base_index: 1, name: "many".into(), ext: (0, 0), pixels: px });
+        let tile_px = tw as usize * th as usize;
+        let px: Vec<u8> = (0..count as usize * tile_px * 4).map(|i| if i < 4 * tile_px { 0 } else if i % 4 == 3 { 255 } else { r.next() as u8 }).collect();
+        if variant < 3 {
+            s.width = mw.max(mh);
+            s.height = s.width;
+        } else {
+            // the canvas has to be long enough to show the tiles beyond pixel 65535 of the map, whose offset is a
+            // (negative) multiple of the tile size no smaller than i16::MIN
+            let long = t.pick(&[65535u16, 50000, 41000]);
+            (s.width, s.height) = if tw > 1 { (long, 1 + t.below(2) as u16) } else { (1 + t.below(2) as u16, long) };
+        }
+        s.tilesets.push(Tileset { id: 77, flags: 6, count, tw, th, base_index: 1, name: "many".into(), ext: (0, 0), pixels: px });
         let li = s.layers.len();
         s.layers.push(Layer { flags: 3, kind: LayerKind::Tilemap { tileset: 77 }, level: 0, blend: 0, opacity: 255, name: "big map".into(), user_data: None });
         let tiles: Vec<u32> = (0..mw as usize * mh as usize).map(|_| (r.next() % count as u64) as u32).collect();
-        s.frames[0].cels.push(Cel { layer: li as u16, x: 0, y: 0, opacity: 255, content: CelContent::Tilemap { w: mw, h: mh, bits: 32, masks: [0x1fffffff, 0x20000000, 0x40000000, 0x80000000], tiles }, user_data: None });
+        let back = (-8192i32 * t.below(5) as i32) as i16;
+        let (ox, oy) = if variant < 3 { (0i16, 0i16) } else if tw > 1 { (back, 0) } else { (0, back) };
+        s.frames[0].cels.push(Cel { layer: li as u16, x: ox, y: oy, opacity: 255, content: CelContent::Tilemap { w: mw, h: mh, bits: 32, masks: [0x1fffffff, 0x20000000, 0x40000000, 0x80000000], tiles }, user_data: None });
     }
     let mut plan = build_plan(&mut t);
     if big_map {
